@@ -11,7 +11,8 @@ EVIDENCE = os.path.join(VERIF, "evidence")
 REPLAYS = os.path.join(OUT, "replays")
 KNOWN = os.path.join(VERIF, "known_findings.json")
 
-NCPU = os.cpu_count() or 4
+# (VERIF_NCPU: the test bench runs several checks side by side and gives each a share of the cores)
+NCPU = int(os.environ.get("VERIF_NCPU") or os.cpu_count() or 4)
 
 
 class ToolError(Exception):
